@@ -3,7 +3,7 @@
 import json, os, sys
 here = os.path.dirname(os.path.abspath(__file__))
 sys.path.insert(0, here)
-from claims import CLAIMS, NOT_APPLICABLE, ADDENDA  # noqa: E402
+from claims import CLAIMS, NOT_APPLICABLE, ADDENDA, ADDENDA5  # noqa: E402
 
 props = [json.loads(l)['id'] for l in open(os.path.join(here, '..', 'properties.jsonl'))]
 checks = []
@@ -18,7 +18,7 @@ for pid in props:
         'evidence_file': f'evidence/{pid}.json',
         'replay_cmd_template': f'./check {pid} --replay {{path}}',
         'engine': 'sa',
-        'level_claimed': {'category': 'other', 'text': c['text'] + ADDENDA.get(pid, ''), 'design_ref': 'DESIGN.md section ' + c['ref']},
+        'level_claimed': {'category': 'other', 'text': c['text'] + ADDENDA.get(pid, '') + ADDENDA5.get(pid, '') + ADDENDA5['ALL'], 'design_ref': 'DESIGN.md section ' + c['ref']},
         'level_note': c['note'],
         'technique': c['technique'],
     })
